@@ -113,7 +113,7 @@ func init() {
 				}()
 				t2.call(nil, 0, task, nil)
 				return nil
-			}}, nil, "worker")
+			}}, nil, th.ex.nextWorkerName())
 			return nil
 		})
 		in.reg("(*github.com/alitto/pond.WorkerPool).StopAndWait", func(th *Thread, fn *ssa.Function, a []Value) Value {
